@@ -567,7 +567,9 @@ func qRecover(spool string, sc qScenario, horizon time.Duration) *qHistory {
 		later := &verifx.ErrNode{Kind: "smtp", Code: 451, Ench: [3]int{4, 0, 0}, Msg: "recovery: later"}
 		for _, m := range sc.Msgs {
 			pm := qMsg{ID: m.ID, Rcpts: m.Rcpts}
-			for a := 0; a < sc.RecoverTempFails && len(m.Rcpts) > 0; a++ {
+			// only where a terminal failure during recovery stays visible (a failure report is generated):
+			// with a suppressed report the crash invariants could not tell a settled recipient from a lost one
+			for a := 0; a < sc.RecoverTempFails && len(m.Rcpts) > 0 && sc.Bounce != "none" && m.From != ""; a++ {
 				last := m.Rcpts[len(m.Rcpts)-1]
 				if sc.Partial {
 					pm.Plans = append(pm.Plans, qPlan{Status: map[string]*verifx.ErrNode{last: later}})
